@@ -8,7 +8,7 @@ use tvh::rollcheck::check1;
 const VALID_INS: &[InT] = &InT::ALL;
 const PLAIN_INS: &[InT] = &[InT::F64, InT::F32, InT::I32, InT::I64];
 const OUTS: &[OutT] = &[OutT::F64, OutT::F64, OutT::F32, OutT::OptF64, OutT::I32, OutT::OptI32];
-const DS: [f64; 8] = [0.25, 0.5, 0.75, 1.0, 1.25, 1.5, 1.9, 1.9999999];
+const DS: [f64; 10] = [0.25, 0.5, 0.75, 1.0, 1.25, 1.5, 1.9, 1.9999999, 2.0, 3.0];
 
 fn null_free(mut c: RollCase) -> RollCase {
     for v in c.x.iter_mut() {
@@ -65,7 +65,7 @@ fn main() {
         12000,
         600000,
         |tier| {
-            (roll_case(tier, VALID_INS, OUTS, 48, 200, 1), 0usize..8).prop_map(|(mut c, k)| {
+            (roll_case(tier, VALID_INS, OUTS, 48, 200, 1), 0usize..10).prop_map(|(mut c, k)| {
                 c.p = DS[k];
                 c
             })
@@ -77,7 +77,7 @@ fn main() {
         12000,
         600000,
         |tier| {
-            (roll_case(tier, PLAIN_INS, OUTS, 48, 200, 1), 0usize..8).prop_map(|(mut c, k)| {
+            (roll_case(tier, PLAIN_INS, OUTS, 48, 200, 1), 0usize..10).prop_map(|(mut c, k)| {
                 c.p = DS[k];
                 c.mp = Some(0);
                 null_free(c)
